@@ -69,7 +69,7 @@ def coq_files():
             out.append(line)
     return out
 
-def prepare():
+def prepare(pid=None):
     """Regenerate gen/*.v, build Coq and the harness.  Returns a status dict."""
     st = {"translator_errors": {}, "coq_log": "", "harness_error": None}
     os.makedirs(BIN, exist_ok=True)
@@ -113,6 +113,12 @@ def prepare():
         st["harness_s"] = dt
         if rc != 0:
             st["harness_error"] = out[-4000:]
+        elif pid == "C13":
+            # the stress part of C13 runs under the race detector
+            rc, out, dt = run(["go", "build", "-race", "-tags", "verif", "-o", os.path.join(BIN, "harness-race"), "."],
+                              cwd=hdir, env=GOENV, timeout=1800)
+            if rc != 0:
+                st["harness_error"] = "race-detector build failed: " + out[-3000:]
     return st
 
 DEPS = {}
@@ -245,7 +251,7 @@ def main(argv):
     shutil.rmtree(wdir, ignore_errors=True)
     os.makedirs(wdir, exist_ok=True)
 
-    st = prepare()
+    st = prepare(pid)
     prop_file = "props/%s.v" % pid
     cone = dep_cone(prop_file)
     stmts = count_statements(cone)
